@@ -218,6 +218,9 @@ def render_policy(pol, rng):
             cfg[who] = None
             continue
         d = {}
+        if sec.get("bare"):
+            cfg[who] = {}          # a section that exists but configures nothing: it still shadows less specific ones
+            continue
         if rng.random() < 0.5:
             d["lifetime"] = {"minutes": 15}
         if rng.random() < 0.3:
@@ -243,6 +246,7 @@ def render_policy(pol, rng):
         elif rng.random() < 0.3:
             d["entity_categories"] = []
         cfg[who] = d
+        sec["bare"] = not d    # nothing configured: the compiled section is an empty (falsy) dict
     return cfg
 
 
@@ -517,7 +521,8 @@ def cq_pol(pol):
         else:
             ar = "None" if sec["ar"] is None else "(Some %s)" % cq(
                 [(cs(n), Raw("None" if rs is None else "(Some %s)" % csl(rs))) for n, rs in sec["ar"]])
-            secs.append((cs(who), Raw("(Some (S %s %s %s))" % (ar, cq_opt(sec["fail"]), csl(sec["ecs"])))))
+            secs.append((cs(who), Raw("(Some (S %s %s %s %s))" % (ar, cq_opt(sec["fail"]), csl(sec["ecs"]),
+                                                              cq(bool(sec.get("bare")))))))
     return "(Some %s)" % cq(secs)
 
 
@@ -712,15 +717,32 @@ def gen_precedence(rng):
     secs = {SP: mk_sec([["mail", None]]), RA1: mk_sec([["sn", None]]), "default": mk_sec([["givenname", None]]),
             "": mk_sec([["title", None]])}
     whos = [SP, RA1, "default", ""]
-    for pres in itertools.product([0, 1, 2], repeat=4):        # absent / present / present but None
+    bare = dict(mk_sec(), bare=True)
+    for pres in itertools.product([0, 1, 2, 3], repeat=4):     # absent / present / present but None / present but {}
         for ra in (None, RA1, RA2):
-            if pres.count(2) > 1 and ra is RA2:
+            if pres.count(2) + pres.count(3) > 1 and ra is RA2:
                 continue
-            pol = [[w, (secs[w] if p == 1 else None)] for w, p in zip(whos, pres) if p]
+            if pres.count(3) > 1 and ra is None:
+                continue
+            pol = [[w, (secs[w] if p == 1 else dict(bare) if p == 3 else None)] for w, p in zip(whos, pres) if p]
             md = mk_md("stub" if sum(pres) % 2 else "real", [], None, [], ra)
             cases.append(mk_case("precedence", "restrict", ident, pol, md, rng=rng))
     # no store at all: the registration authority is unknown
     cases.append(mk_case("precedence", "restrict", ident, [[w, secs[w]] for w in whos[1:]], None, rng=rng))
+    # a more specific section that exists but configures nothing still shadows the settings of a less specific
+    # one: fail_on_missing_requested=False / entity categories / restrictions of the default must NOT apply
+    lacking = [("sn", ["x"]), ("givenName", ["staff"])]
+    need_mail = [ra_for("mail", "uri", "right", isreq="true")]
+    for who, ra in ((SP, None), (RA1, RA1)):
+        for shadow in (dict(bare), None, "absent"):
+            for dflt in (mk_sec(None, False), mk_sec([["sn", None]], False), mk_sec(None, None, ["refeds"]),
+                         mk_sec(None, None, ["swamid"])):
+                for dname in ("default", ""):
+                    pol = ([] if shadow == "absent" else [[who, copy.deepcopy(shadow)]]) + [[dname, copy.deepcopy(dflt)]]
+                    for idn in (lacking, ident):
+                        for entry in ("restrict", "apply"):
+                            cases.append(mk_case("precedence-shadow", entry, idn, copy.deepcopy(pol),
+                                                 mk_md("real", need_mail, None, [], ra), rng=rng))
     return cases
 
 
